@@ -342,7 +342,12 @@ func (t *Tree) parseInnerExpr() (Expr, error) {
 			}
 			switch nxt.tokenType {
 			case tokenText:
-				exprs = append(exprs, NewStringExpr(nxt.value, nxt.Pos))
+				pos := nxt.Pos
+				if len(exprs) == 0 {
+					// A string literal begins at its opening quote.
+					pos = tok.Pos
+				}
+				exprs = append(exprs, NewStringExpr(nxt.value, pos))
 			case tokenInterpolateOpen:
 				exp, err := t.parseExpr()
 				if err != nil {
@@ -359,7 +364,7 @@ func (t *Tree) parseInnerExpr() (Expr, error) {
 					var res *BinaryExpr
 					for i := 1; i < ln; i++ {
 						if res == nil {
-							res = NewBinaryExpr(exprs[i-1], OpBinaryConcat, exprs[i], exprs[i-1].Start())
+							res = NewBinaryExpr(exprs[i-1], OpBinaryConcat, exprs[i], tok.Pos)
 							continue
 						}
 						res = NewBinaryExpr(res, OpBinaryConcat, exprs[i], res.Pos)
